@@ -173,6 +173,7 @@ structure Core where
   suspended : List (FileScan × Int) := []               -- scannersStack, top first, with `at`
   tracers : List (Bytes × List (Bytes × Int)) := []   -- includeTracers cache keyed by (hash of) includer name
   accesses : List (String × Bytes) := []               -- observed os.Stat / os.ReadFile calls, newest first
+  resumed : Bool := false                               -- resumedAfterInclude
 
 /-- the live include trace: innermost first -/
 def Core.liveTrace (c : Core) : List (Bytes × Int) := c.suspended.map (fun p => (p.1.name, p.2))
@@ -213,6 +214,9 @@ def lexBytes (fs : FileScan) (l : Lexeme) : Option Bytes := fs.env.lexValue l
 
 def includeKw : Bytes := strBytes "INCLUDE"
 def jsightKw : Bytes := strBytes "JSIGHT"
+
+def noDirectiveToOpenMsg : String :=
+  "there is no directive to open with this opening parenthesis, learn more about the explicit direcitve boundaries here: https://jsight.io/docs/jsight-api-0-3#boundaries-of-the-body-of-the-directive"
 
 /-- core.next for every lexeme type except the INCLUDE keyword -/
 def Core.onLexeme (c : Core) (l : Lexeme) : Except PFault Core :=
@@ -256,8 +260,10 @@ def Core.onLexeme (c : Core) (l : Lexeme) : Except PFault Core :=
     | some d => .ok { c with cur := some { d with body := some (c.current.name, l.b, l.e) } }
   | .ContextExplicitOpening =>
     match c.cur with
-    | none => .error (.panic "processContextBegin: currentDirective is nil")
-    | some d => .ok { c with cur := some { d with explicit := true } }
+    | none => .error (.err (c.japiError noDirectiveToOpenMsg l.b))
+    | some d =>
+      if d.explicit then .error (.err (c.japiError noDirectiveToOpenMsg l.b))
+      else .ok { c with cur := some { d with explicit := true } }
   | .ContextExplicitClosing =>
     match c.processCurrent with
     | .error f => .error f
@@ -286,21 +292,23 @@ def containsSub (s pat : Bytes) : Bool :=
   | _ :: rest => isPrefixB pat s || containsSub rest pat
 
 inductive NameErr where
-  | root | up | sep
+  | empty | root | up | sep
   deriving DecidableEq, Repr
 
-/-- validateIncludeFileName; `none` = panic (s[0] on the empty string) -/
-def validateIncludeFileName (s : Bytes) : Option (Except NameErr Unit) :=
+/-- validateIncludeFileName -/
+def validateIncludeFileName (s : Bytes) : Except NameErr Unit :=
   match s with
-  | [] => none
+  | [] => .error .empty
   | c :: _ =>
-    if c == 47 then some (.error .root)
+    if c == 47 then .error .root
+    else if (splitOn47 s).any (fun seg => seg == [46] || seg == [46, 46]) then .error .up
     else if containsSub s [47, 46, 47] || containsSub s [46, 47] || containsSub s [47, 46] ||
-            containsSub s [47, 46, 46, 47] || containsSub s [46, 46, 47] || containsSub s [47, 46, 46] then some (.error .up)
-    else if s.contains 92 then some (.error .sep)
-    else some (.ok ())
+            containsSub s [47, 46, 46, 47] || containsSub s [46, 46, 47] || containsSub s [47, 46, 46] then .error .up
+    else if s.contains 92 then .error .sep
+    else .ok ()
 
 def nameErrMsg : NameErr → String
+  | .empty => "cannot be empty"
   | .root => "cannot not start with `/`"
   | .up => "cannot contain `..` or `.`"
   | .sep => "directories must be separated by slashes `/`"
@@ -353,9 +361,8 @@ def Core.processInclude (c : Core) (fsys : FileSys) (kw : Lexeme) : Except PFaul
         | some raw =>
           let path := unquote raw
           match validateIncludeFileName path with
-          | none => .error (.panic "validateIncludeFileName: index out of range [0]")
-          | some (.error e) => .error (lexErr fs kw ("incorrect parameter (Filename) \"_\": " ++ nameErrMsg e) c)
-          | some (.ok ()) =>
+          | .error e => .error (lexErr fs kw ("incorrect parameter (Filename) \"_\": " ++ nameErrMsg e) c)
+          | .ok () =>
             let abs := joinDir fs.name path
             let c := { c with accesses := ("stat", abs) :: c.accesses }
             match fsys abs with
@@ -381,8 +388,17 @@ def Core.run (fsys : FileSys) : Nat → Core → Except PFault Core
     | .error f => .error (scanFault c f)
     | .ok (some l, sc') =>
       let c := { c with current := { fs with sc := sc' } }
+      let tailErr : Option PFault :=
+        if c.resumed then
+          match l.ty with
+          | .Parameter => some (lexErr fs l "incorrect parameter \"_\"" c)
+          | .Annotation => some (lexErr fs l "the annotation is not allowed for this directive" c)
+          | _ => none
+        else none
+      let c := { c with resumed := false }
       let isInc := l.ty == .Keyword && lexBytes fs l == some includeKw
-      if isInc then
+      if let some f := tailErr then .error f
+      else if isInc then
         match c.processInclude fsys l with
         | .error f => .error f
         | .ok c' => Core.run fsys n c'
@@ -397,6 +413,6 @@ def Core.run (fsys : FileSys) : Nat → Core → Except PFault Core
       | .ok c =>
         match c.suspended with
         | [] => .ok c
-        | (s, _) :: rest => Core.run fsys n { c with current := s, suspended := rest }
+        | (s, _) :: rest => Core.run fsys n { c with current := s, suspended := rest, resumed := true }
 
 end JsightVerif.Model
